@@ -269,7 +269,7 @@ _WEAK_QUICK = [s for s in pipeline.QUICK_SLICES
 
 CONDITIONS = [
     {'fn': 'weak', 'slices': pipeline.ALL_SLICES,
-     'quick_slices': _WEAK_QUICK, 'quick': 110, 'thorough': 600,
+     'quick_slices': _WEAK_QUICK, 'quick': 110, 'thorough': 300,
      'bound': 'weak claim on the whole single-mutation document space of '
               'vlib/pipeline.py (quick: 4 models): every RecognitionError '
               'cites at least one position and every cited line lies inside '
